@@ -253,6 +253,7 @@ impl NodeEventSubscription for Events {
         self.log.lock().unwrap().push(format!("{}:disconnected {}", self.node, s.peer_addr));
     }
     fn node_session_authenticated(&self, s: NodeServerSessionInformation) {
+        vsched::log(format!("EVENT {}:authenticated {}", self.node, s.peer_addr));
         self.log.lock().unwrap().push(format!("{}:authenticated {}", self.node, s.peer_addr));
     }
     fn node_session_ready(&self, s: NodeServerSessionInformation) {
@@ -336,6 +337,8 @@ pub enum Sym {
     Call,
     Reply,
     Garbage,
+    /// an authentication message whose oneof is unset (payload 0A 00)
+    EmptyAuth,
 }
 pub const SYMS: &[Sym] = &[
     Sym::Name,
@@ -352,6 +355,7 @@ pub const SYMS: &[Sym] = &[
     Sym::Call,
     Sym::Reply,
     Sym::Garbage,
+    Sym::EmptyAuth,
 ];
 
 fn frame_for(s: Sym, target_pid: u64) -> Option<proto::NetworkMessage> {
@@ -377,12 +381,13 @@ fn frame_for(s: Sym, target_pid: u64) -> Option<proto::NetworkMessage> {
         Sym::Call => node_msg(pn::node_message::Msg::Call(pn::Call { to: target_pid, what: { let mut v = 4u64.to_be_bytes().to_vec(); v.extend(9u32.to_be_bytes()); v }, tag: 1, timeout_ms: None, variant: "Ask".into(), metadata: None })),
         Sym::Reply => node_msg(pn::node_message::Msg::Reply(pn::CallReply { to: target_pid, tag: 1, what: vec![0, 0, 0, 1] })),
         Sym::Garbage => return None,
+        Sym::EmptyAuth => proto::NetworkMessage { message: Some(proto::meta::network_message::Message::Auth(pa::AuthenticationMessage { msg: None })) },
     })
 }
 
 /// what the accepting / dialling state machine does with an *authentication* symbol (see c17.rs)
 fn closes(is_server: bool, state: &mut &'static str, s: Sym) -> bool {
-    let auth = matches!(s, Sym::Name | Sym::ServerStatusOk | Sym::ServerChallenge | Sym::ClientChallengeBad | Sym::ServerAckBad | Sym::ClientStatus);
+    let auth = matches!(s, Sym::Name | Sym::ServerStatusOk | Sym::ServerChallenge | Sym::ClientChallengeBad | Sym::ServerAckBad | Sym::ClientStatus | Sym::EmptyAuth);
     if !auth {
         return s == Sym::Garbage; // an undecodable frame closes the transport
     }
@@ -860,6 +865,140 @@ fn c18_body(d: Dials) -> vsched::Body {
     })
 }
 
+/// the dialling half of the handshake played by the harness against an accepting node: Name(name, id), then
+/// the challenge is answered with `cookie`. Returns whether the node acknowledged.
+async fn scripted_name(peer: &mut ScriptedPeer, name: &str, connection_id: u64) {
+    let _ = peer
+        .send(&auth_msg(pa::authentication_message::Msg::Name(pa::NameMessage { name: name.into(), flags: Some(pa::NodeFlags { version: 1 }), connection_string: "peer:1".into(), connection_id })))
+        .await;
+}
+async fn scripted_finish(peer: &mut ScriptedPeer, cookie: &str) -> bool {
+    let mut challenge = None;
+    for _ in 0..4 {
+        match peer.recv().await {
+            Some(m) => {
+                if let Some(proto::meta::network_message::Message::Auth(a)) = m.message {
+                    if let Some(pa::authentication_message::Msg::ServerChallenge(c)) = a.msg {
+                        challenge = Some(c.challenge);
+                        break;
+                    }
+                }
+            }
+            None => return false,
+        }
+    }
+    let Some(c) = challenge else { return false };
+    let _ = peer.send(&auth_msg(pa::authentication_message::Msg::ClientChallenge(pa::ChallengeReply { challenge: 42, digest: challenge_digest(cookie, c) }))).await;
+    for _ in 0..4 {
+        match peer.recv().await {
+            Some(m) => {
+                if let Some(proto::meta::network_message::Message::Auth(a)) = m.message {
+                    if matches!(a.msg, Some(pa::authentication_message::Msg::ServerAck(_))) {
+                        return true;
+                    }
+                }
+            }
+            None => return false,
+        }
+    }
+    false
+}
+
+#[derive(Clone, Copy, Debug, PartialEq, Eq)]
+pub enum Scripted {
+    /// `n` stalled connections claim the honest peer's name AND connection id; then the honest peer dials
+    SameNonceSquatters(usize),
+    /// an honest legacy peer (connection id 0) dials twice; the first dial finishes its handshake last
+    LegacyTwoDials,
+    /// the same with a repeated non-zero id
+    RepeatedIdTwoDials,
+}
+
+/// one real node, the peer played by the harness (it knows the cookie and controls the connection ids)
+fn c18_scripted_body(kind: Scripted) -> vsched::Body {
+    with_rt(move || async move {
+        let events: L = Arc::new(Mutex::new(vec![]));
+        let node = start_node("a", COOKIE, &events).await;
+        vsched::quiesce();
+        let mut bad = Vec::new();
+        let open = |label: &str| {
+            let (node_end, mine) = pipe(label, 0);
+            let _ = node.server.cast(NodeServerMessage::ConnectionOpenedExternal { stream: Box::new(node_end), is_server: true });
+            ScriptedPeer::new(mine.stream)
+        };
+        vsched::explore_schedules(true);
+        let mut stalled = Vec::new();
+        let honest_pipes: Vec<&str>;
+        match kind {
+            Scripted::SameNonceSquatters(n) => {
+                for i in 0..n {
+                    let mut p = open(&format!("pipe-stall{i}"));
+                    scripted_name(&mut p, "b@host", 7).await;
+                    stalled.push(p);
+                }
+                vsched::quiesce();
+                let mut h = open("pipe-honest");
+                scripted_name(&mut h, "b@host", 7).await;
+                if !scripted_finish(&mut h, COOKIE).await {
+                    bad.push("the honest peer's handshake was not acknowledged".to_string());
+                }
+                stalled.push(h);
+                honest_pipes = vec!["pipe-honest"];
+            }
+            Scripted::LegacyTwoDials | Scripted::RepeatedIdTwoDials => {
+                let id = if kind == Scripted::LegacyTwoDials { 0 } else { 9 };
+                let mut first = open("pipe-first");
+                scripted_name(&mut first, "b@host", id).await;
+                vsched::quiesce();
+                let mut second = open("pipe-second");
+                scripted_name(&mut second, "b@host", id).await;
+                let ok2 = scripted_finish(&mut second, COOKIE).await;
+                vsched::quiesce();
+                let ok1 = scripted_finish(&mut first, COOKIE).await;
+                if !ok1 && !ok2 {
+                    bad.push("neither of the honest peer's two dials was acknowledged".to_string());
+                }
+                stalled.push(first);
+                stalled.push(second);
+                honest_pipes = vec!["pipe-first", "pipe-second"];
+            }
+        }
+        vsched::quiesce_time();
+        vsched::explore_schedules(false);
+        // what is left standing: authenticated, running sessions of the peer
+        let mut kids = node.server.get_children();
+        kids.sort_by_key(|c| c.get_id());
+        let listed = sessions(&node).await;
+        let mut standing = Vec::new();
+        for (pipe_label, name, actor) in &listed {
+            if actor.get_status() == ActorStatus::Running {
+                if let Ok(ractor::rpc::CallResult::Success(true)) = actor.call(NodeSessionMessage::GetAuthenticationState, Some(Duration::from_millis(20))).await {
+                    standing.push((pipe_label.clone(), name.clone()));
+                }
+            }
+        }
+        let ev = events.lock().unwrap().clone();
+        if standing.len() != 1 {
+            bad.push(format!("{} authenticated sessions for the peer are left standing ({standing:?}), expected exactly one; events {ev:?}", standing.len()));
+        } else if !honest_pipes.contains(&standing[0].0.as_str()) {
+            bad.push(format!("the session left standing is {:?}, which never proved the cookie", standing[0]));
+        }
+        for e in &ev {
+            if e.contains("authenticated pipe-stall") || e.contains("ready pipe-stall") {
+                bad.push(format!("a connection that never answered the challenge was reported authenticated: {e}"));
+            }
+        }
+        let key = format!("{standing:?}");
+        for p in stalled {
+            p.close().await;
+        }
+        vsched::quiesce();
+        node.server.stop(None);
+        let _ = node.handle.await;
+        Outcome { key, violations: bad }
+    })
+}
+
 pub fn c18_units(thorough: bool) -> Vec<Unit> {
     let cfg = cluster_cfg();
     let mut v = Vec::new();
@@ -878,6 +1017,15 @@ pub fn c18_units(thorough: bool) -> Vec<Unit> {
             let mut c = cfg.clone();
             c.hash_seed = seed;
             v.push(Unit::explore_split(Job::new(format!("two-nodes/{d:?}/seed{seed}"), c, Some(if thorough { 2 } else { 1 }), c18_body(d)), 16));
+        }
+    }
+    // the peer played by the harness: repeated / legacy connection ids; the tables are hash maps, so several
+    // hash seeds are run
+    for kind in [Scripted::SameNonceSquatters(1), Scripted::SameNonceSquatters(3), Scripted::LegacyTwoDials, Scripted::RepeatedIdTwoDials] {
+        for seed in if thorough { (1u64..=8).collect::<Vec<_>>() } else { vec![1u64, 2, 3, 4] } {
+            let mut c = cfg.clone();
+            c.hash_seed = seed;
+            v.push(Unit::explore_split(Job::new(format!("scripted-peer/{kind:?}/seed{seed}").replace(['(', ')'], ""), c, Some(if thorough { 2 } else { 1 }), c18_scripted_body(kind)), 4));
         }
     }
     v
@@ -1015,6 +1163,39 @@ fn c20_body(read_limit: usize, ending: Ending, abandon: bool) -> vsched::Body {
         if remote_ref_of(p.get_id(), "pub").is_none() {
             bad.push("the original re-joined the group but its remote reference did not".into());
         }
+        // an actor that appears after the session became ready: advertised when it joins a group, reachable
+        // through its remote reference, gone from the group when it stops
+        vsched::explore_schedules(true);
+        let qlog: L = Arc::new(Mutex::new(vec![]));
+        let (q, qh) = Actor::spawn(Some("Q".into()), Probe { log: qlog.clone(), tag: "Q", reply_delay_ms: 0 }, ()).await.expect("Q");
+        ractor::pg::join("late".into(), vec![q.get_cell()]);
+        vsched::quiesce_time();
+        match remote_ref_of(q.get_id(), "late") {
+            None => bad.push(format!("an actor spawned after the session was ready joined a group but no remote reference followed: {:?}", ractor::pg::verif_snapshot().groups)),
+            Some(qproxy) => {
+                let qr: ActorRef<Wire> = qproxy.clone().into();
+                let _ = qr.cast(Wire::Note(7, "late".into()));
+                let ans = qr.call(|reply| Wire::Ask(301, reply), Some(Duration::from_millis(100))).await;
+                vsched::quiesce_time();
+                if !matches!(ans, Ok(ractor::rpc::CallResult::Success(1301))) {
+                    bad.push(format!("a call through the late actor's remote reference ended as {:?}", ans.as_ref().map(|c| format!("{c:?}")).map_err(|_| "send error")));
+                }
+                if qlog.lock().unwrap().clone() != vec!["Q:note 7 late".to_string(), "Q:ask 301".to_string()] {
+                    bad.push(format!("the late actor handled {:?}", qlog.lock().unwrap()));
+                }
+                q.stop(None);
+                vsched::quiesce_time();
+                if qproxy.get_status() != ActorStatus::Stopped {
+                    bad.push(format!("the late actor stopped but its remote reference is {:?}", qproxy.get_status()));
+                }
+                if ractor::pg::get_members(&"late".to_string()).iter().any(|c| c.get_id() == qproxy.get_id()) {
+                    bad.push("the late actor stopped but its remote reference is still a group member".into());
+                }
+            }
+        }
+        q.stop(None);
+        let _ = qh.await;
+        vsched::explore_schedules(false);
         match ending {
             Ending::None => {}
             Ending::OriginalStops => {
@@ -1180,6 +1361,80 @@ fn c20_late_body(latency_ms: u64, think_ms: u64, pause_ms: u64) -> vsched::Body 
     })
 }
 
+/// An actor is spawned (and joins a group) at a schedule-chosen moment while the two nodes connect and
+/// authenticate; decision points before the map operations of the pid registry make the moments between a
+/// session's scan of the local actors and its subscription to later spawns reachable. Afterwards the actor
+/// must be reachable through every remote reference that joined the group for it.
+fn c20_spawn_race_body(max_delay: usize) -> vsched::Body {
+    with_rt(move || async move {
+        let t = two_nodes().await;
+        let plog: L = Arc::new(Mutex::new(vec![]));
+        let (p, ph) = Actor::spawn(Some("P".into()), Probe { log: plog.clone(), tag: "P", reply_delay_ms: 0 }, ()).await.expect("P");
+        ractor::pg::join("pub".into(), vec![p.get_cell()]);
+        vsched::explore_schedules(true);
+        let qlog: L = Arc::new(Mutex::new(vec![]));
+        let ql = qlog.clone();
+        let racer = vsched::spawn("racer", async move {
+            let delay = match std::env::var("SPAWN_DELAY").ok().and_then(|d| d.parse().ok()) {
+                Some(d) => d,
+                None => vsched::choose_free("spawn-after-rounds", max_delay),
+            };
+            for i in 0..delay {
+                vsched::log(format!("racer turn {i}"));
+                vsched::yield_now().await;
+            }
+            vsched::log("racer spawns".to_string());
+            let (q, qh) = Actor::spawn(Some("Q".into()), Probe { log: ql, tag: "Q", reply_delay_ms: 0 }, ()).await.expect("Q");
+            ractor::pg::join("late".into(), vec![q.get_cell()]);
+            (q, qh)
+        });
+        dial(&t.a, &t.b, "pipe-ab", 0);
+        let (q, qh) = racer.await.expect("racer");
+        vsched::quiesce_time();
+        vsched::explore_schedules(false);
+        let mut bad = Vec::new();
+        let ev = t.events.lock().unwrap().clone();
+        if ev.iter().filter(|e| e.contains(":ready")).count() != 2 {
+            bad.push(format!("the two nodes did not both reach ready: {ev:?}"));
+        }
+        // (both nodes live in this process and number their sessions alike, so the two remote references of
+        // one actor carry the same remote id and pg keeps only one of them: take them from the sessions)
+        let mut proxies: Vec<ActorCell> = Vec::new();
+        for n in [&t.a, &t.b] {
+            for (_, _, sess) in sessions(n).await {
+                proxies.extend(sess.get_children().into_iter().filter(|c| !c.get_id().is_local() && c.get_id().pid() == q.get_id().pid()));
+            }
+        }
+        if !ractor::pg::get_members(&"late".to_string()).iter().any(|c| !c.get_id().is_local() && c.get_id().pid() == q.get_id().pid()) && bad.is_empty() {
+            bad.push(format!("the actor joined a group but no remote reference followed it there: {:?}", ractor::pg::verif_snapshot().groups));
+        }
+        if proxies.is_empty() && bad.is_empty() {
+            bad.push(format!("the actor joined a group but no remote reference followed: {:?}", ractor::pg::verif_snapshot().groups));
+        }
+        for (i, px) in proxies.iter().enumerate() {
+            let r: ActorRef<Wire> = px.clone().into();
+            let ans = r.call(|reply| Wire::Ask(301 + 2 * i as u32, reply), Some(Duration::from_millis(100))).await;
+            if !matches!(ans, Ok(ractor::rpc::CallResult::Success(v)) if v == 1301 + 2 * i as u32) {
+                bad.push(format!(
+                    "remote reference {} of an actor spawned while the session was being set up does not reach it: the call ended as {:?}",
+                    px.get_id(),
+                    ans.as_ref().map(|c| format!("{c:?}")).map_err(|_| "send error")
+                ));
+            }
+        }
+        let key = format!("proxies={} asks={}", proxies.len(), qlog.lock().unwrap().len());
+        for n in [t.a, t.b] {
+            n.server.stop(None);
+            let _ = n.handle.await;
+        }
+        for (r, h) in [(p, ph), (q, qh)] {
+            r.stop(None);
+            let _ = h.await;
+        }
+        Outcome { key, violations: bad }
+    })
+}
+
 pub fn c20_units(thorough: bool) -> Vec<Unit> {
     let cfg = cluster_cfg();
     let mut v = Vec::new();
@@ -1196,6 +1451,12 @@ pub fn c20_units(thorough: bool) -> Vec<Unit> {
             }
         }
     }
+    // an actor spawned while the sessions are being set up (map-level decision points of the registries)
+    let fine = ExecCfg {
+        filter: Some(Arc::new(|k, l, t: &vsched::TaskInfo| k == vsched::PointKind::Map && matches!(l, "map.iter" | "map.insert" | "map.entry") && (t.role == "lib" || t.role == "racer"))),
+        ..cfg.clone()
+    };
+    v.push(Unit::explore_split(Job::new("remote-spawn-race", fine, Some(if thorough { 2 } else { 1 }), c20_spawn_race_body(if thorough { 64 } else { 40 })), 16));
     // timed-out calls with transit time: (latency, think time of the real actor, pause before the next call)
     let mut late = vec![(30u64, 80u64, 5u64), (30, 80, 30), (20, 60, 5), (10, 120, 5)];
     if thorough {
